@@ -41,6 +41,8 @@ def run(R):
     try:
         if R.want("C10.R1"):
             r1(R, M)
+        if R.want("C10.R7"):  # positive evidence first: it must be reported even when R4 cannot read a rewritten method
+            r7(R, M)
         if R.want("C10.R4"):  # structural, first: a violation found here outranks an interpreter failure in R2 / R3
             r4(R, M)
         if R.want("C10.R5"):
@@ -404,6 +406,49 @@ def r6(R, M):
             continue
         R.shape(False, "C10.R6", TM, q, "this use of self.phases: %s" % src(getattr(par, "_parent", par))[:70])
     R.floor("C10.R6", 1)
+
+
+def r7(R, M):
+    """F = R.S = V.R: the grain-frame tensor is f(S), the sample-frame tensor f(V) = R.f(S).R^T with R the POLAR rotation of F.  The
+    Busing-Levy orientation U = (B.ubi)^T of the strained cell is a different matrix (it keeps a* along x and b* in the xy plane);
+    R^T.U is a rotation by O(shear strain), so U.f(S).U^T differs from f(V) in second order of the strain (1e-3 .. 1e-2 at a 10 %
+    stretch with shear).  Positive evidence: a strain tensor of one frame computed from the tensor of the other frame and U."""
+    R.rule("C10.R7", "a strain tensor (map) of one frame is never obtained from the other frame's tensor by rotating with the Busing-Levy "
+                     "orientation U = (B.ubi)^T: the two are related by the polar rotation of F, which differs from U whenever the stretch has "
+                     "shear in the crystal axes (second order in the strain)")
+    gm, tm = M["grain"], M["tensor_map"]
+    other = {"eps_sample_matrix": ("eps_grain_matrix", "eps_grain"), "eps_grain_matrix": ("eps_sample_matrix", "eps_sample")}
+    n = 0
+    for meth, others in sorted(other.items()):
+        fn = gm.func("grain.%s" % meth)
+        uses = [c for c in ast.walk(fn) if isinstance(c, ast.Call) and isinstance(c.func, ast.Attribute) and c.func.attr in others
+                and src(c.func.value) == "self"]
+        ureads = [a for a in ast.walk(fn) if isinstance(a, ast.Attribute) and a.attr in ("U", "u") and src(a.value) == "self"]
+        n += 1
+        R.check(not (uses and ureads), "C10.R7", GR, (uses or [fn])[0].lineno, "grain.%s" % meth,
+                "%s from self.%s and self.U" % (meth, uses[0].func.attr if uses else "-"),
+                "the %s tensor is the other frame's tensor rotated with self.U (Busing-Levy orientation of the strained cell) instead of the "
+                "polar rotation of the deformation gradient: the result is the right tensor turned by an extra rotation of the order of the "
+                "shear strain, so it is not R.E(S).R^T for a known stretch with shear (error second order in the strain)"
+                % ("sample-frame" if "sample" in meth else "grain-frame"),
+                desc="%s:grain.%s is not a U-rotation of the other frame's tensor" % (GR, meth))
+    for q, fn in sorted(tm.funcs.items()):
+        if not q.startswith("TensorMap."):
+            continue
+        for c in ast.walk(fn):
+            if not (isinstance(c, ast.Call) and (pyfacts.dotted(c.func) or "").split(".")[-1] in ("tensor_crystal_to_sample", "tensor_sample_to_crystal") and len(c.args) >= 2):
+                continue
+            arg = pyfacts.resolved_src(fn, c.args[0], 2, keep=("self",))
+            if not re.match(r"^(self\.)?(eps|strain)_\w+$", arg.strip()):
+                continue          # stress maps (and anything that is not a stored strain map) are outside this property
+            n += 1
+            fname = (pyfacts.dotted(c.func) or "").split(".")[-1]
+            R.check(src(c.args[1]) not in ("self.U", "self.u"), "C10.R7", TM, c.lineno, q, "%s(%s, self.U)" % (fname, arg[:30]),
+                    "the strain map of one frame is made from the cached map of the other frame by rotating with self.U (Busing-Levy "
+                    "orientation) instead of the polar rotation: which answer %s gives depends on which of the two maps was asked for (or "
+                    "loaded) first, and the rotated one differs from the per-grain tensor in second order of the strain" % q,
+                    desc="%s:%s %s not rotated with the Busing-Levy U" % (TM, q, arg[:30]))
+    R.floor("C10.R7", 3)
 
 
 def r5(R, M):
